@@ -181,6 +181,18 @@ Definition step_shape (sz : Snap.osize) (w : hwriter) (o : hop) (r : res hwerr u
   | _, _ => True
   end.
 
+Lemma kf_cases w tick :
+  let kfr : res hwerr bool :=
+    match hw_last_keyframe w with
+    | None => Ok true
+    | Some lk => if is_i32 (tick - lk) then Ok (250 <? tick - lk) else Panic site_keyframe_sub
+    end in
+  kfr = Ok (keyframe_rule w tick) \/ kfr = Panic site_keyframe_sub.
+Proof.
+  unfold keyframe_rule. destruct (hw_last_keyframe w) as [lk|]; [|left; reflexivity].
+  destruct (is_i32 (tick - lk)); [left|right]; reflexivity.
+Qed.
+
 Definition hop_ok (o : hop) : bool :=
   match o with HSnap tick _ => is_i32 tick | HMsg enc => bytes_ok enc end.
 
@@ -202,17 +214,7 @@ Proof.
   - (* write_snap *)
     unfold write_snap in H. destruct (tick_refused w tick) eqn:Eref.
     { injection H as <- <- <-. exists []. repeat split; try reflexivity; assumption. }
-    assert (Hkf : match hw_last_keyframe w with
-                  | None => Ok true
-                  | Some lk => if is_i32 (tick - lk) then Ok (250 <? tick - lk) else Panic site_keyframe_sub
-                  end = Ok (keyframe_rule w tick) \/
-                  exists s, match hw_last_keyframe w with
-                  | None => Ok true
-                  | Some lk => if is_i32 (tick - lk) then Ok (250 <? tick - lk) else Panic site_keyframe_sub
-                  end = (Panic s : res hwerr bool)).
-    { unfold keyframe_rule. destruct (hw_last_keyframe w) as [lk|]; [|left; reflexivity].
-      destruct (is_i32 (tick - lk)); [left; reflexivity|right; eexists; reflexivity]. }
-    destruct Hkf as [Hkf|[s Hkf]]; rewrite Hkf in H;
+    destruct (kf_cases w tick) as [Hkf|Hkf]; rewrite Hkf in H;
       [|injection H as <- <- <-; discriminate Hr].
     set (kf := keyframe_rule w tick) in *.
     destruct (add_items (hw_builder w) items) as [b' [[]|e|s|]] eqn:Eadd.
@@ -267,10 +269,10 @@ Proof.
       rewrite (write_chunks_app [CTick tick kf] _ (hw_prev w) tb (Some tick) Htick (fun _ _ => I) eq_refl).
       cbn [write_chunks]. destruct kf; cbn [write_chunk]; rewrite Ecb; rewrite app_nil_r; reflexivity. }
     split. { cbn [forallb chunk_ok]. rewrite Hop. destruct kf; cbn [chunk_ok]; rewrite Hbok; reflexivity. }
-    split. { cbn [existsb k15_chunk]. unfold DEMO_MAX_SIZE. destruct kf; cbn [k15_chunk]; lia. }
-    split; [destruct kf; reflexivity|]. split; [reflexivity|].
+    split. { destruct kf; cbn [existsb k15_chunk]; unfold DEMO_MAX_SIZE; lia. }
+    split; [cbn [hw_prev]; rewrite Hprev'; destruct kf; reflexivity|]. split; [reflexivity|].
     split; [|discriminate].
-    cbn [step_shape]. exists b', e. split; [reflexivity|].
+    cbn [step_shape]. exists b', e. split; [exact Eadd|].
     fold kf. subst encr. split.
     + destruct kf; [exact Eenc|].
       destruct (Snap.create_raw _ _) as [d|?|?|]; try discriminate. exists d. split; [reflexivity|exact Eenc].
